@@ -1,17 +1,22 @@
 ----------------------------- MODULE WorkTrace -----------------------------
 (***************************************************************************)
 (* Mode V for C11.  A trace event is one request:                          *)
-(*   [id, family, n, doc, obs |-> [counters, wallUs, refused, problem]]     *)
+(*   [id, family, n, cfg |-> [recursive, directives], doc,                  *)
+(*    obs |-> [counters, wallUs, refused, aborted, problem]]                *)
+(* cfg: the limit_recursive_depth (-1: default 32) and limit_directives     *)
+(* (-1: unset) of the schema the request ran on.                            *)
 (* counters = <<visit_selection, visit_field, recursive_depth,              *)
 (* max_directives, find_conflicts>> read from the cfg-guarded hook after    *)
 (* the request.                                                             *)
 (* Verdict (the property): every counter <= PolyBound(doc) = K * Size^2.    *)
 (*   A request above the bound is excused as known:DevNoMemo only if the    *)
-(*   document is in the deviation's trigger class (some fragment is         *)
-(*   expanded more than once when the operations are walked) and no counter *)
-(*   exceeds the work of the code as written (Limits!Visits_asCoded,        *)
-(*   evaluated through the cost table).                                     *)
-(* Drift (never a verdict): counters = Visits_asCoded(doc).                 *)
+(*   request is in the deviation's trigger class (some fragment is expanded *)
+(*   more than once and some walker that ran did more than visiting every   *)
+(*   fragment body once costs -- a request refused by a limit before the    *)
+(*   fan-out is walked is not) and no counter exceeds the work of the code  *)
+(*   as written under the request's limits (Limits!Visits_asCodedAt: the    *)
+(*   schema.rs walkers stop at the first violation).                        *)
+(* Drift (never a verdict): counters = Visits_asCodedAt(doc, cfg).          *)
 (***************************************************************************)
 EXTENDS Limits, Json, IOUtils
 
@@ -22,15 +27,15 @@ VARIABLE l
 Judge(c) ==
   LET C     == WorkCtx(c.doc)
       cnt   == c.obs.counters
-      coded == Visits_asCodedFast(C)
+      coded == Visits_asCodedFastAt(C, c.cfg)
       b     == PolyBound(C)
       v     == IF c.obs.problem # "" \/ Len(cnt) # 5 THEN "violation:problem"
                ELSE IF WithinBound(cnt, b) THEN "ok"
-               ELSE IF TriggerNoMemo(C) /\ (\A i \in 1..5 : cnt[i] <= coded[i]) THEN "known:DevNoMemo"
+               ELSE IF TriggerNoMemoAt(C, c.cfg) /\ (\A i \in 1..5 : cnt[i] <= coded[i]) THEN "known:DevNoMemo"
                ELSE "violation"
   \* one JSON string, so that TLC prints the tuple on one line
   IN <<"VERDICT", c.id, ToJson([verdict |-> v, size |-> Size(C), bound |-> b, coded |-> coded,
-                                match |-> (cnt = coded), ideal |-> Visits_ideal(C)])>>
+                                match |-> (cnt = coded), ideal |-> Visits_idealAt(C, c.cfg)])>>
 
 TInit == l = 1
 TNext == l <= Len(Cases) /\ PrintT(Judge(Cases[l])) /\ l' = l + 1
